@@ -180,7 +180,7 @@ PROPS = {
                           'The known finding K1 (spin in partial_put_huge exhausts RETRIES) is matched by its panic message. '
                           'Sequential histories (a special case of interleavings) with panic capture and the ownership oracle: ' + S_RULE),
         'partial': ('refuted for the unchanged code by a kernel-checked schedule (K1, known finding); sequential half proved for every history; every '
-                    'interleaving proved for the whole lower allocator with frees at allocation order (no panic, held frees succeed); upper-level concurrent panic sites and partial frees of huge allocations explored, not proved'),
+                    'interleaving proved for the whole lower allocator and for the whole public interface (get every path, put at allocation order, drain; valid parameters): no call panics (conc_public_api_no_panic), held frees succeed at the lower level; partial frees of huge allocations are the refuted case K1; change_tree under interleavings explored, not proved'),
         'assumptions': ['hooked atomics: a yield point before every Atom access; compare_exchange never fails spuriously'],
     },
     'C04': {
